@@ -19,7 +19,7 @@ import (
 	"github.com/jhump/grpctunnel/tunnelpb"
 )
 
-var overrunKinds = []string{"exact-window", "plus1", "plus-chunk", "many-windows", "mid-message", "after-credit-exact", "after-credit-plus1", "second-stream", "one-huge-frame", "flood-32MiB"}
+var overrunKinds = []string{"exact-window", "plus1", "plus-chunk", "many-windows", "mid-message", "after-credit-exact", "after-credit-plus1", "second-stream", "one-huge-frame", "flood-32MiB", "deadline-then-plus1", "deadline-then-windows"}
 
 func init() {
 	families["overrun"] = famOverrun
@@ -107,7 +107,12 @@ func famOverrun(w *World, c *Case, rng *rand.Rand) {
 	for _, f := range msgFramesC2S(0, wrapBytes(GenPayload("by", dirReq, 0, 5)), 16384) {
 		send(f)
 	}
-	send(fNew(1, "verif.Svc/ClientStream", "v", 1, uint32(c.p("announce", W))))
+	nv := fNew(1, "verif.Svc/ClientStream", "v", 1, uint32(c.p("announce", W)))
+	if strings.HasPrefix(kind, "deadline-") {
+		// the RPC carries a deadline that expires while its handler is still running and not reading
+		nv.GetNewStream().RequestHeaders.Md["grpc-timeout"] = &tunnelpb.Metadata_Values{Val: []string{"100m"}}
+	}
+	send(nv)
 	w.Wait()
 	// helper: send n bytes of well-formed message data on stream id as one message
 	sendMsg := func(id int64, n int) {
@@ -148,6 +153,16 @@ func famOverrun(w *World, c *Case, rng *rand.Rand) {
 		sendMsg(1, W+1)
 	case "one-huge-frame":
 		send(fMsg(1, uint32(W+5), make([]byte, W+5)))
+	case "deadline-then-plus1", "deadline-then-windows":
+		// the window is filled exactly, the deadline passes (the handler keeps running), then the
+		// peer goes on sending without any credit: the window is still enforced
+		sendMsg(1, W)
+		w.Advance(300 * time.Millisecond)
+		if kind == "deadline-then-plus1" {
+			sendMsg(1, 1)
+		} else {
+			sendMsg(1, 3*W)
+		}
 	case "flood-32MiB":
 		runtime.GC()
 		var m0, m1 runtime.MemStats
